@@ -201,12 +201,24 @@ macro_rules! norm_path {
 		let n = p.normalized();
 		let nn = n.normalized();
 		let ns: Vec<String> = p.normalized_segments().map(|s| hex(s.as_bytes())).collect();
+		// the normalized-segment iterator is double-ended: backwards, and alternating front/back, it yields the same sequence
+		let mut back: Vec<String> = p.normalized_segments().rev().map(|s| hex(s.as_bytes())).collect();
+		back.reverse();
+		let (mut fr, mut bk) = (Vec::new(), Vec::new());
+		let mut it = p.normalized_segments(); let mut turn = true;
+		loop {
+			let x = if turn { it.next() } else { it.next_back() };
+			match x { Some(sg) => if turn { fr.push(hex(sg.as_bytes())) } else { bk.push(hex(sg.as_bytes())) }, None => break }
+			turn = !turn;
+		}
+		bk.reverse(); fr.extend(bk);
+		let de_ok = back == ns && fr == ns;
 		let mut pb = $m::pathbuf(&inp).unwrap();
 		pb.normalize();
 		let once = pb.as_bytes().to_vec();
 		pb.normalize();
-		format!("{}\t{}\t{}\t{}\t{}\t{}\t{}", hex(n.as_bytes()), $m::path(n.as_bytes()).is_some() as u8, hex(nn.as_bytes()), ns.join(","), hex(&once),
-			$m::path(&once).is_some() as u8, hex(pb.as_bytes()))
+		format!("{}\t{}\t{}\t{}\t{}\t{}\t{}\t{}", hex(n.as_bytes()), $m::path(n.as_bytes()).is_some() as u8, hex(nn.as_bytes()), ns.join(","), hex(&once),
+			$m::path(&once).is_some() as u8, hex(pb.as_bytes()), de_ok as u8)
 	}};
 }
 
